@@ -77,7 +77,7 @@ template <class Scalar> static std::vector<Outcome> run_t(const Spec &s, const N
       o.err = std::isfinite((double)o.lib) || std::isfinite(o.lib) ? errof(o.ref) : 1e300;
       if (!std::isfinite(o.lib)) { o.status = 1; o.note = "non-finite value for finite admissible input"; }
       else if (o.err <= K) o.status = 0;
-      else if (e.asbuilt) { Q ab = e.asbuilt(p, ptq); double eab = errof(ab); if (eab <= K) { o.status = 2; o.finding = e.finding; o.note = "matches the as-built operator to " + std::to_string(eab) + " eps*mag, not the operator the property names"; } else { o.status = 1; o.note = "matches neither the property operator nor the recorded as-built operator (as-built err " + std::to_string(eab) + ")"; } }
+      else if (e.asbuilt) { Q ab = e.asbuilt(p, ptq); double eab = errof(ab); o.errab = eab; if (eab <= K) { o.status = 2; o.finding = e.finding; o.note = "matches the as-built operator to " + std::to_string(eab) + " eps*mag, not the operator the property names"; } else { o.status = 1; o.note = "matches neither the property operator nor the recorded as-built operator (as-built err " + std::to_string(eab) + ")"; } }
       else o.status = 1;
     } catch (std::exception &ex) { o.status = 1; o.err = 1e300; o.note = std::string("exception: ") + ex.what(); }
     out.push_back(o);
